@@ -14,10 +14,9 @@
    - zones: SPECIFICATION-level model Dom/Zone.v (closed bound matrices); exactness proved in
      Dom/ZoneSound.v through the potential construction (a closed consistent matrix has an
      integer point attaining each finite entry);
-   - octagons: SPECIFICATION-level model Dom/Oct.v (2n nodes, tight closure); soundness of
-     every step proved in Dom/OctSound.v; the exactness statement is
-     OctSound.C12_oct_exact_statement, of which C12_oct_exact_partial below is the proved
-     (soundness) half: completeness of the tight closure is not proved;
+   - octagons: SPECIFICATION-level model Dom/Oct.v (2n nodes, tight closure); soundness AND
+     exactness proved in Dom/OctSound.v (tight closure is complete over the integers:
+     OctSound.C12_oct_exact_statement is proved as C12_oct_exact);
    - liftings: no theorem; checked by correspondence and oracle only (checks/C12.py).
    All statements are for every dimension, every constant and every history.
    Statements only. *)
@@ -237,10 +236,86 @@ Theorem C12_oct_language : forall c es s,
 Proof. exact oct_edges_spec. Qed.
 Print Assumptions C12_oct_language.
 
-(* the proved half of OctSound.C12_oct_exact_statement: soundness of the operations and of
-   the entailment test (completeness of the tight closure is the documented gap) *)
-Theorem C12_oct_exact_partial : forall n,
-  sound_dom (oct_dom n) ogamma (fun _ => True) /\
-  (forall c z s, o_entails c z = true -> ogamma z s -> sat c s).
-Proof. exact oct_exact_partial. Qed.
-Print Assumptions C12_oct_exact_partial.
+(* EXACTNESS: an invariant, established by top and kept by every operation of the language,
+   under which every operation is exact, bottom means "no integer point" and entails means
+   "implied over the integers" *)
+Theorem C12_oct_exact : C12_oct_exact_statement.
+Proof. exact oct_exact. Qed.
+Print Assumptions C12_oct_exact.
+
+Theorem C12_oct_conjunction_exact : forall n cs, Nat.even n = true -> Forall (o_ok n) cs ->
+  let z := o_assume n cs (o_top n) in
+  (z_is_bot z = true <-> forall s, ~ Forall (fun c => sat c s) cs) /\
+  (forall c, o_ok n c ->
+     (o_entails c z = true <-> forall s, Forall (fun c => sat c s) cs -> sat c s)).
+Proof. exact oct_conjunction_exact. Qed.
+Print Assumptions C12_oct_conjunction_exact.
+
+Theorem C12_oct_exact_operations : forall n, Nat.even n = true ->
+  exact_dom (oct_dom n) (ozwf n) ogamma (o_ok n) (oa_ok n) (fun v => (nnode v < n)%nat).
+Proof. exact oct_exact_dom. Qed.
+Print Assumptions C12_oct_exact_operations.
+
+Theorem C12_oct_history_invariant : forall n, Nat.even n = true -> forall h rs,
+  Forall (ozwf n) rs ->
+  Forall (gop_ok (o_ok n) (oa_ok n) (fun v => (nnode v < n)%nat)) h ->
+  Forall (ozwf n) (grun (oct_dom n) rs h).
+Proof. exact oct_history_invariant. Qed.
+Print Assumptions C12_oct_history_invariant.
+
+Theorem C12_oct_step_exact : forall n, Nat.even n = true -> forall rs o,
+  Forall (ozwf n) rs -> gop_ok (o_ok n) (oa_ok n) (fun v => (nnode v < n)%nat) o ->
+  (gtarget o < length rs)%nat ->
+  step_spec (oct_dom n) (ozwf n) ogamma rs o (gget (oct_dom n) (gstep (oct_dom n) rs o) (gtarget o)).
+Proof. exact oct_step_exact. Qed.
+Print Assumptions C12_oct_step_exact.
+
+Theorem C12_oct_bottom_exact : forall n z, Nat.even n = true -> ozwf n z ->
+  (z_is_bot z = true <-> forall s, ~ ogamma z s).
+Proof. exact oct_bottom_exact. Qed.
+Print Assumptions C12_oct_bottom_exact.
+
+Theorem C12_oct_entails_exact : forall n c z, Nat.even n = true -> ozwf n z -> o_ok n c ->
+  (o_entails c z = true <-> forall s, ogamma z s -> sat c s).
+Proof. exact o_entails_exact. Qed.
+Print Assumptions C12_oct_entails_exact.
+
+(* the tight closure of a closed coherent matrix satisfies the invariant and keeps exactly the
+   integer points *)
+Theorem C12_oct_tight_closure_invariant : forall n m, Nat.even n = true -> mwf n m ->
+  coherent (mget m) -> ozwf n (o_close n (ZM m)).
+Proof. exact o_close_owf. Qed.
+Print Assumptions C12_oct_tight_closure_invariant.
+
+Theorem C12_oct_tight_closure_exact : forall n m, Nat.even n = true -> mwf n m ->
+  forall s, ogamma (o_close n (ZM m)) s <-> gfun (mget m) (oval s).
+Proof. exact o_close_gamma. Qed.
+Print Assumptions C12_oct_tight_closure_exact.
+
+Theorem C12_oct_integer_point : forall n m, Nat.even n = true -> mwf n m -> coherent (mget m) ->
+  feasible (mget m) -> exists s, gfun (mget m) (oval s).
+Proof. exact oct_inhabited. Qed.
+Print Assumptions C12_oct_integer_point.
+
+Theorem C12_oct_entry_attained : forall n m i j k, Nat.even n = true -> owf n m ->
+  (i < n)%nat -> (j < n)%nat ->
+  mget m i j = Some k -> exists s, gfun (mget m) (oval s) /\ oval s j - oval s i = k.
+Proof. exact oct_entry_attained. Qed.
+Print Assumptions C12_oct_entry_attained.
+
+Theorem C12_oct_join_least : forall n a b c, Nat.even n = true -> ozwf n a -> ozwf n b -> zdim n c ->
+  (forall s, ogamma a s -> ogamma c s) -> (forall s, ogamma b s -> ogamma c s) ->
+  forall s, ogamma (o_join n a b) s -> ogamma c s.
+Proof. exact o_join_least. Qed.
+Print Assumptions C12_oct_join_least.
+
+Theorem C12_oct_meet_exact : forall n a b, Nat.even n = true -> ozwf n a -> ozwf n b ->
+  ozwf n (o_meet n a b) /\ forall s, ogamma (o_meet n a b) s <-> (ogamma a s /\ ogamma b s).
+Proof. exact o_meet_spec. Qed.
+Print Assumptions C12_oct_meet_exact.
+
+Theorem C12_oct_forget_exact : forall n vs, Nat.even n = true -> forall z s', ozwf n z ->
+  Forall (fun v => (nnode v < n)%nat) vs ->
+  (ogamma (o_forget n vs z) s' <-> exists s, ogamma z s /\ store_eq_off vs s s').
+Proof. exact o_forget_exact. Qed.
+Print Assumptions C12_oct_forget_exact.
